@@ -721,6 +721,7 @@ def run(ctx: core.Check):
     ctx.lean_stage(["Pun.Lemmas.PBoxNum", "Pun.Props.C06"])
     cases = gen_cases(ctx)
     replies = core.model_batch("C06", [wire(c) for c in cases])
+    recorded = []
     alive, pending = [], []   # live result objects of recent cases ; cases scheduled for a second evaluation
 
     def recheck(final=False):
@@ -748,6 +749,8 @@ def run(ctx: core.Check):
             alive.append({"case": c, "result": keep["result"], "operand": keep["operand"], "canon": impl})
         if idx % 7 == 0:
             pending.append((idx + 5, c, impl))
+        if idx % 4 == 1 and len(recorded) < 400:
+            recorded.append((c, impl))
         while pending and pending[0][0] <= idx:
             _, c2, first = pending.pop(0)
             ctx.bump("evaluated-twice")
@@ -765,6 +768,16 @@ def run(ctx: core.Check):
             ctx.fail({**features(c2), "check": "not-reproducible", "symptom": "state-carried"}, case_json(c2, again, full=True),
                      f"{describe_full(c2)}: the same call on a fresh, equal operand gives a different result after other calls")
     recheck(final=True)
+    # sequence stream: the same kind of call many times in a row, operands and results created and dropped in
+    # between (address reuse), nothing kept alive; every result must equal the one recorded in the main pass
+    seq = sorted(recorded, key=lambda t: (t[0]["k"], t[0].get("f", ""), t[0].get("op", "")))
+    for c2, first in seq:
+        ctx.bump("sequence-replayed")
+        again = run_impl(c2)
+        if repr(again) != repr(first):
+            ctx.fail({**features(c2), "check": "not-reproducible", "symptom": "state-carried"}, case_json(c2, again, full=True),
+                     f"{describe_full(c2)}: repeated in a row with other operands created and dropped in between, the call "
+                     f"no longer gives the result it gave before")
 
 
 def replay(obj):
